@@ -4,6 +4,7 @@ from hypothesis import strategies as st
 import pyModeS as pms
 from ref import crc24, frames
 from vlib import gen
+from vlib import variants
 from vlib import volume
 from vlib.core import Leg, call
 
@@ -14,7 +15,7 @@ RULE = ("address (uniform 24-bit, 0, all-ones, block edges, letter-rich) x DF 0.
         "different formats and letter cases give the *same string*; adsb.icao / allcall.icao agree; strided sweep of the 2^24 addresses "
         "(all of them in the thorough tier). non-trivial = address and payload non-zero; canonical cases with a letter digit and "
         "differing case or DF"
-        ' Also: real DF17/20/21 frames with their known addresses (leg corpus), addresses chosen so that the AP field repeats six hex digits of the data part, four concurrent callers (leg threads), 140 000 / 1.3 million distinct frames in a row in one process (leg volume).')
+        ' Also: real DF17/20/21 frames with their known addresses (leg corpus), addresses chosen so that the AP field repeats six hex digits of the data part, four concurrent callers (leg threads), 140 000 / 1.3 million distinct frames in a row in one process (leg volume), the first calls of a freshly imported package made by four threads at once (leg first_use).')
 ASSUMPTIONS = ["AP/PI overlay per Annex 10 as implemented in ref/crc24.py", "a frame of either length may carry any DF (icao() is documented length-agnostic)"]
 
 AP = (0, 4, 5, 16, 20, 21)
@@ -203,7 +204,21 @@ def vol_step(a, b, k):
     return None
 
 
+# ---------------------------------------------------------------- first calls of a freshly imported package, four threads at once
+def first_jobs(rng):
+    jobs = []
+    for _ in range(40):
+        df = rng.choice([17, 18, 11, 4, 5, 20, 21, 0, 16, 24, 19])
+        n = 56 if df in (0, 4, 5, 11) else 112
+        addr = rng.getrandbits(24)
+        msg = build(addr, df, n, rng.getrandbits(n - 29), rng.choice("UL"))
+        exp = "%06X" % addr if (df in AP or df in AA) else None
+        jobs.append(("common.icao", (msg,), (lambda got, exp=exp: None if got[0] == "ok" and (got[1] is None if exp is None else (isinstance(got[1], str) and got[1].upper() == exp)) else "transponder address %s" % exp)))
+    return jobs
+
+
 LEGS = [
+    variants.first_use_leg(first_jobs),
     volume.leg(vol_step, 140000, 1300000, "140 000 (thorough: 1.3 million per process) distinct frames of all formats through icao() in one process"),
     Leg("threads", chk_threads, enum=enum_threads, shards_quick=4, shards_thorough=8, doc="concurrent callers of icao() with a 1 us switch interval"),
     Leg("corpus", chk_corpus, enum=enum_corpus, exhaustive=True, doc="real DF17/DF20/DF21 frames with their known addresses (upper and lower case)"),
